@@ -31,13 +31,15 @@ UpdCS(s, e) == IF e.op = "CsNew" THEN e.coins
                ELSE IF e.op = "CsPop" THEN Pop(s)
                ELSE IF e.op = "CsShift" THEN Shift(s)
                ELSE s
+TxKey(c) == IF "txk" \in DOMAIN c THEN c.txk ELSE c.id
 PostOK(e, s) ==
   LET q == e.post IN
   IF q.num # Len(s) THEN V("coinset-count", Len(s), q.num)
   ELSE IF q.total # TotalValue(s) THEN V("coinset-total-value", TotalValue(s), q.total)
   ELSE IF q.totalage # TotalValueAge(s) THEN V("coinset-total-value-age", TotalValueAge(s), q.totalage)
   ELSE IF q.ids # [k \in 1..Len(s) |-> s[k].id] THEN V("coinset-contents", [k \in 1..Len(s) |-> s[k].id], q.ids)
-  ELSE IF q.txins # [k \in 1..Len(s) |-> <<s[k].id, s[k].index>>] THEN V("transaction-inputs", [k \in 1..Len(s) |-> <<s[k].id, s[k].index>>], q.txins)
+  \* a transaction built from the set spends exactly the set's outpoints (funding transaction txk, output index), in order
+  ELSE IF q.txins # [k \in 1..Len(s) |-> <<TxKey(s[k]), s[k].index>>] THEN V("transaction-inputs", [k \in 1..Len(s) |-> <<TxKey(s[k]), s[k].index>>], q.txins)
   ELSE OK
 
 VerdictCS(p, e, s) ==
